@@ -54,6 +54,21 @@ static std::vector<Vec> window(const Lattice& g, int W) {
   }
   return out;
 }
+// The enumerated window walks the parameters of a lattice and samples its lines at four small fractions only (all of
+// whose differences are multiples of 1/6).  A brute-force comparison against another lattice B is
+// therefore meaningful only if every line of A is a line of B as well (then the line directions factor out of both sides);
+// otherwise a point of A outside B exists along that line.  Direction l is a line of B iff B contains b + t*l for two
+// fractions t with coprime large denominators (the generated denominators are <= 30).
+static bool lines_are_lines_of(const Lattice& ca, const Lattice& B) {
+  if (ca.lines.empty()) return true;
+  if (B.empty) return false;
+  for (size_t i = 0; i < ca.lines.size(); ++i) {
+    Vec x(B.p), y(B.p);
+    for (int d = 0; d < B.n; ++d) { x[d] += ca.lines[i][d] / Q(7919); y[d] += ca.lines[i][d] / Q(7907); }
+    if (!member(B, x) || !member(B, y)) return false;
+  }
+  return true;
+}
 static Lattice hull_of(const std::vector<Vec>& pts, int n) { Lattice g = lat_empty(n); if (pts.empty()) return g; g.empty = false; g.p = pts[0]; for (size_t i = 1; i < pts.size(); ++i) { Vec q(n); for (int d = 0; d < n; ++d) q[d] = pts[i][d] - pts[0][d]; g.params.push_back(q); } return g; }
 
 void gridseq_selftest_case() {
@@ -83,7 +98,7 @@ void gridseq_selftest_case() {
     if (!A.empty && !B.empty) for (int s = 0; s < 20; ++s) { Vec x = rand_member(A), y = rand_member(B), z = rand_member(coin() ? A : B); int a = rnd(-3, 3), b = rnd(-3, 3); Vec w(n); for (int d = 0; d < n; ++d) w[d] = a * x[d] + b * y[d] + (1 - a - b) * z[d]; hx::checked(); if (!member(J, w)) { bad("join.affine_combination", sv(w)); return; } }
     if (!A.empty && !B.empty) { Lattice ca = A, cb = B; canonicalize(ca); canonicalize(cb); std::vector<Vec> pts = window(ca, 1), pb = window(cb, 1); pts.insert(pts.end(), pb.begin(), pb.end()); Lattice H = hull_of(pts, n); H.lines = ca.lines; H.lines.insert(H.lines.end(), cb.lines.begin(), cb.lines.end()); hx::checked(); if (!same(H, J)) { bad("join.minimal", sl(A) + " " + sl(B) + " hull " + sl(H) + " join " + sl(J)); return; } }
     // inclusion against sampling
-    { bool inc = included(A, B); bool refuted = false; if (!A.empty) { Lattice ca = A; canonicalize(ca); for (auto& x : window(ca, 1)) if (!member(B, x)) refuted = true; } hx::checked(); if (inc && refuted) { bad("included.sample_outside", sl(A) + " " + sl(B)); return; } if (!inc && !refuted && !A.empty) { bad("included.no_witness", sl(A) + " " + sl(B)); return; } }
+    { bool inc = included(A, B); bool refuted = false; if (!A.empty) { Lattice ca = A; canonicalize(ca); for (auto& x : window(ca, 1)) if (!member(B, x)) refuted = true; if (!lines_are_lines_of(ca, B)) refuted = true; } hx::checked(); if (inc && refuted) { bad("included.sample_outside", sl(A) + " " + sl(B)); return; } if (!inc && !refuted && !A.empty) { bad("included.no_witness", sl(A) + " " + sl(B)); return; } }
   }
   // 4. difference (closed form) against the hull of an enumerated window
   {
@@ -93,7 +108,7 @@ void gridseq_selftest_case() {
     bool err = false; Lattice D = difference(A, B2, &err); hx::count("st.difference");
     if (err) { bad("difference.internal", sl(A) + " " + sl(B2)); return; }
     Lattice ca = A; canonicalize(ca);
-    if (!A.empty && ca.params.size() + ca.lines.size() <= 3) {
+    if (!A.empty && ca.params.size() + ca.lines.size() <= 3 && lines_are_lines_of(ca, B2)) {
       int W = ca.params.size() <= 1 ? 12 : ca.params.size() == 2 ? 6 : 4;
       std::vector<Vec> all = window(ca, W), S; for (auto& x : all) if (!member(B2, x)) S.push_back(x);
       hx::checked(S.size());
